@@ -17,7 +17,7 @@ pub fn run_async(ctl: &Arc<Controller>, plan: &PlanTuple, port: u16, active: &st
     let results: Arc<Mutex<HashMap<String, Vec<String>>>> = Arc::new(Mutex::new(HashMap::new()));
     let t: AsyncSmtpTransport<Tokio1Executor> = {
         let _g = rt.enter();
-        AsyncSmtpTransport::<Tokio1Executor>::builder_dangerous("127.0.0.1")
+        AsyncSmtpTransport::<Tokio1Executor>::builder_dangerous(crate::util::lo())
             .port(port)
             .timeout(Some(Duration::from_millis(timeout_ms)))
             .pool_config(PoolConfig::new().max_size(max_size).min_idle(min_idle).idle_timeout(Duration::from_millis(idle_ms)))
